@@ -4,7 +4,7 @@ SPECIFICATION Spec
 CONSTANTS
     Source = "gen"
     NGlyphs = 4
-    Names1 = {"A", "B"}
+    Names1 = {"A", "A_1", "B"}
     Names2 = {"A", "B"}
     NMasters = {1, 2, 3}
     DefaultAt = {"first", "middle", "last"}
